@@ -2,6 +2,7 @@ import PdshVerif.Opt.Wcoll
 import PdshVerif.Opt.WcollSpec
 import PdshVerif.Opt.WcollLemmas
 import PdshVerif.Opt.SourceLemmas
+import PdshVerif.Opt.Refine
 
 /-!
 # C10  The target list is assembled faithfully from every source
@@ -21,11 +22,15 @@ error, and errors are final (`unreadable_is_error`, `unreadable_include_is_error
 (`short_lines_whole`), with the repaired reader every line is (`whole_lines`).
 The full statement "file lines of any length are read whole" is FALSE of the unchanged code:
 `fgets_splits` (general) and `fgets_splits_witness` (D12).
-Not proved here: `reader = Opt/WcollSpec` as one theorem (the check compares the two on every
-generated tree instead);  hostlist expansion;  dirname(3)/access(2) themselves.
+`file_hosts_spec_partial` / `file_source_spec_partial`: on well-formed files whose lines fit the buffer
+the reader IS the specification `Opt/WcollSpec.lean` (same expressions in the same order, one warning
+per skipped second reach, same error status); for the repaired reader without any length condition.
+Not proved here: hostlist expansion;  dirname(3)/access(2) themselves;  the opt.c side is proved
+against its own characterisation (`order_of_sources`), the check compares it with the
+specification's `assemble` on every generated command line.
 -/
 namespace PdshVerif.Props.C10
-open PdshVerif.Opt.Wcoll
+open PdshVerif.Opt PdshVerif.Opt.Wcoll
 
 /-- for every file system, include graph (cycles, diamonds, self-includes), source list, stdin and
 environment, the reader never runs out of its fuel `|fs|+1`: reading terminates -/
@@ -164,6 +169,44 @@ theorem fgets_splits_witness :
     ((readStream .whole [] [".".toList] "n1,node0454\n".toList).exprs = ["n1,node0454".toList]) := by
   decide
 
+/-- FULL statement (kept visible; FALSE of the unchanged code because of D12):
+`∀ fs topdir content, (lines well formed) → reader = specification`, for lines of ANY length.
+What holds: the reader is the specification for well-formed files whose lines fit the buffer
+(`mode = shipped`: at most 2046 bytes before the newline); for the repaired reader (`mode = .whole`)
+the length hypotheses are vacuous and the statement is the full one. -/
+theorem file_hosts_spec_partial (mode : LineMode) (fs : FS) (topdir : Str)
+    (hfs : FsOK mode.cap topdir fs) (content : Str) (hc : ContentOK mode.cap topdir content) :
+    (readStream mode fs [topdir] content).exprs = (WcollSpec.streamHosts fs topdir content).exprs ∧
+    (readStream mode fs [topdir] content).nwarn = (WcollSpec.streamHosts fs topdir content).skipped ∧
+    (readStream mode fs [topdir] content).fatal = (WcollSpec.streamHosts fs topdir content).error :=
+  let r := readStream_rel mode fs topdir hfs content hc
+  ⟨r.exprs, r.nwarn, r.fatal⟩
+
+/-- the same for a `^file` source: hosts, skip warnings and error status of the reader are those of
+the specification's `fileHosts`, provided the directory of the command-line file is what the
+specification means by it (a plain path: `dirname`, split at ':', is that one directory) -/
+theorem file_source_spec_partial (mode : LineMode) (fs : FS) (stdin file : Str) (h1 : file ≠ ['-'])
+    (hdir : listSplit [':'] (dirname file) = [WcollSpec.dirOf file])
+    (hfs : FsOK mode.cap (WcollSpec.dirOf file) fs) :
+    (readWcoll mode fs stdin file).1.exprs = (WcollSpec.fileHosts fs file).exprs ∧
+    (readWcoll mode fs stdin file).1.nwarn = (WcollSpec.fileHosts fs file).skipped ∧
+    (readWcoll mode fs stdin file).1.fatal = (WcollSpec.fileHosts fs file).error := by
+  unfold readWcoll WcollSpec.fileHosts
+  rw [if_neg h1, hdir]
+  cases hlk : lookup fs file with
+  | none => exact ⟨rfl, rfl, rfl⟩
+  | some f =>
+    simp only
+    by_cases hrd : f.readable = true
+    · simp only [hrd, if_true]
+      exact file_hosts_spec_partial mode fs _ hfs f.content (hfs f (lookup_some_mem hlk).1 hrd)
+    · simp [hrd]
+
+/-- quirk outside the property's domain, mirrored by the model: the directory of the command-line
+file is split at ':' (it is handed to `list_split (":", ...)` as if it were a search path) -/
+theorem colon_dir_witness :
+    listSplit [':'] (dirname "c:d/A".toList) = ["c".toList, "d".toList] := by decide
+
 /-! ### non-vacuity: a cyclic include graph with a diamond, read to the end -/
 
 def demoFS : FS :=
@@ -175,5 +218,13 @@ example : (assemble shipped demoFS [] ["^d/A".toList] none).exprs =
     ["a1", "b1", "c1", "a1", "a9", "a9"].map String.toList ∧
     (assemble shipped demoFS [] ["^d/A".toList] none).nwarn = 4 ∧
     (assemble shipped demoFS [] ["^d/A".toList] none).fatal = false := by decide
+
+example : listSplit [':'] (dirname "t/u/A".toList) = [WcollSpec.dirOf "t/u/A".toList] := by decide
+example : listSplit [':'] (dirname "./A".toList) = [WcollSpec.dirOf "./A".toList] := by decide
+example : listSplit [':'] (dirname "A".toList) = [WcollSpec.dirOf "A".toList] := by decide
+example : listSplit [':'] (dirname "/abs/d/A".toList) = [WcollSpec.dirOf "/abs/d/A".toList] := by decide
+
+example : LineOK "d".toList "#include \tB ".toList := ⟨by decide, by decide, by decide⟩
+example : LineOK "d".toList " n[1-3] # comment".toList := ⟨by decide, by decide, by decide⟩
 
 end PdshVerif.Props.C10
